@@ -38,6 +38,17 @@ pub enum Mut {
     AnyBits { seed: u64, n: usize },
     /// overwrite bytes at a logical offset
     Raw { logical: u64, bytes: Vec<u8> },
+    /// drop the nth element called `tag` and set the numeric content of sibling number `sib`
+    /// (another leaf of the same parent) to `value`: "optional element absent, default computed
+    /// from a hostile sibling"
+    XmlDropAndSibling { tag: String, nth: usize, sib: usize, value: String },
+    /// DOCTYPE with nested internal entities behind the XML declaration and a reference to the
+    /// outermost entity inside the first string element
+    XmlEntityBomb { unit: usize, fan: usize, refs: usize },
+    /// overwrite the packets of point cloud `cv` from its first packet on with copies of one tiny
+    /// hostile packet: kind 0 = 12-byte data packet (length field 11) whose stream table claims
+    /// 65535 bytes for the first stream, 1 = 4-byte ignored packets, 2 = 16-byte index packets
+    PacketBomb { cv: usize, kind: u8 },
     /// replace the header of packet `packet` of point cloud `cv` by a well-formed non-data packet
     /// header (kind 0 = index: 16 bytes, reserved bytes zero; kind 2 = ignored: 4 bytes) whose
     /// length field is `length_field`
@@ -246,6 +257,39 @@ fn edit_xml(xml: &str, m: &Mut) -> Option<String> {
             }
             Some(format!("{}{}{}", &xml[..head_end + 1], out, &xml[close_start..]))
         }
+        Mut::XmlDropAndSibling { tag, nth, sib, value } => {
+            let (s, e) = element_span(xml, tag, *nth)?;
+            // the parent's extent: from the last unmatched '<name' before s to its end tag
+            let without = format!("{}{}", &xml[..s], &xml[e..]);
+            // numeric leaves in a window around the dropped element (same parent with high probability)
+            let lo = without[..s].rfind("Representation").or_else(|| without[..s].rfind("<vectorChild")).unwrap_or(s.saturating_sub(400));
+            let hi = (s + 600).min(without.len());
+            let hi = (hi..=without.len()).find(|i| without.is_char_boundary(*i)).unwrap_or(without.len());
+            let lo = (0..=lo).rev().find(|i| without.is_char_boundary(*i)).unwrap_or(0);
+            let nodes: Vec<(usize, usize)> = number_nodes(&without[lo..hi]).into_iter().map(|(a, b)| (a + lo, b + lo)).collect();
+            if nodes.is_empty() {
+                return Some(without);
+            }
+            let (a, b) = nodes[sib % nodes.len()];
+            Some(format!("{}{}{}", &without[..a], value, &without[b..]))
+        }
+        Mut::XmlEntityBomb { unit, fan, refs } => {
+            let unit_text = "A".repeat(*unit);
+            let mut dtd = format!("<!DOCTYPE e57Root [<!ENTITY b \"{unit_text}\"><!ENTITY a \"");
+            for _ in 0..*fan {
+                dtd.push_str("&b;");
+            }
+            dtd.push_str("\">]>");
+            let i = xml.find("?>").map(|i| i + 2).unwrap_or(0);
+            let mut out = format!("{}{}{}", &xml[..i], dtd, &xml[i..]);
+            let j = out.find("<![CDATA[")?;
+            let mut r = String::new();
+            for _ in 0..*refs {
+                r.push_str("&a;");
+            }
+            out.insert_str(j, &r);
+            Some(out)
+        }
         Mut::XmlReplace { from, to, nth } => {
             let i = nth_match(xml, from, *nth)?;
             Some(format!("{}{}{}", &xml[..i], to, &xml[i + from.len()..]))
@@ -344,6 +388,46 @@ pub fn apply(pristine: &[u8], map: &Decoded, plan: &Plan) -> Vec<u8> {
                 }
             }
             Mut::Raw { logical: at, bytes } => put(&mut logical, *at, bytes),
+            Mut::PacketBomb { cv, kind } => {
+                if map.cvs.is_empty() {
+                    continue;
+                }
+                let c = &map.cvs[cv % map.cvs.len()];
+                if c.packets.is_empty() {
+                    continue;
+                }
+                let n_streams = c.packets.iter().find(|p| p.kind == 1).map(|p| p.stream_lens.len()).unwrap_or(3).max(1);
+                let unit: Vec<u8> = match kind {
+                    0 => {
+                        // data packet header + stream table, claimed total length = its own size rounded to 4
+                        let mut u = vec![1u8, 0, 0, 0];
+                        u.extend_from_slice(&(n_streams as u16).to_le_bytes());
+                        u.extend_from_slice(&0xFFFFu16.to_le_bytes());
+                        for _ in 1..n_streams {
+                            u.extend_from_slice(&0u16.to_le_bytes());
+                        }
+                        while u.len() % 4 != 0 {
+                            u.push(0);
+                        }
+                        let l = (u.len() - 1) as u16;
+                        u[2..4].copy_from_slice(&l.to_le_bytes());
+                        u
+                    }
+                    1 => vec![2, 0, 3, 0],
+                    _ => {
+                        let mut u = vec![0u8; 16];
+                        u[2] = 15;
+                        u
+                    }
+                };
+                let from = c.packets[0].logical as usize;
+                let to = ((c.logical + c.section_length) as usize).min(logical.len());
+                let mut i = from;
+                while i + unit.len() <= to {
+                    logical[i..i + unit.len()].copy_from_slice(&unit);
+                    i += unit.len();
+                }
+            }
             Mut::PacketCraft { cv, packet, kind, length_field } => {
                 if map.cvs.is_empty() {
                     continue;
@@ -535,7 +619,7 @@ pub fn draw_plan(r: &mut Rng, pristine: &[u8], map: &Decoded, size_targeted: boo
                         "prototype", "points", "vectorChild", "data3D", "images2D", "guid", "pose", "rotation", "translation", "cartesianX", "cartesianInvalidState", "sphericalRange",
                         "colorRed", "intensity", "intensityLimits", "colorLimits", "intensityMinimum", "colorRedMaximum", "cartesianBounds", "indexBounds", "rowIndex",
                         "visualReferenceRepresentation", "pinholeRepresentation", "sphericalRepresentation", "cylindricalRepresentation", "jpegImage", "pngImage", "imageMask",
-                        "imageWidth", "dateTimeValue", "isAtomicClockReferenced", "formatName", "versionMajor", "e57Root", "acquisitionStart", "w", "x",
+                        "imageWidth", "imageHeight", "pixelWidth", "pixelHeight", "focalLength", "principalPointX", "principalPointY", "radius", "dateTimeValue", "isAtomicClockReferenced", "formatName", "versionMajor", "e57Root", "acquisitionStart", "w", "x",
                     ])
                     .to_string(),
                 nth: r.usize_below(32),
@@ -576,6 +660,16 @@ pub fn draw_plan(r: &mut Rng, pristine: &[u8], map: &Decoded, size_targeted: boo
             },
             17 => Mut::BlobHeader { blob: r.usize_below(8), field: r.below(2) as u8, value: draw_u64(r, file_len, &anchors) },
             18 => Mut::PayloadBits { cv: r.usize_below(4), seed: r.next_u64(), n: 1 + r.usize_below(16) },
+            19 if r.chance(1, 3) => match r.below(3) {
+                0 => Mut::XmlDropAndSibling {
+                    tag: r.pick(&["pixelWidth", "pixelHeight", "imageWidth", "imageHeight", "focalLength", "radius", "principalPointY", "scale", "offset", "isAtomicClockReferenced", "dateTimeValue", "w", "x", "translation", "rotation", "intensityMaximum", "colorRedMinimum", "xMaximum", "rowMaximum"]).to_string(),
+                    nth: r.usize_below(8),
+                    sib: r.usize_below(12),
+                    value: r.pick(&NUM_TEXTS).to_string(),
+                },
+                1 => Mut::PacketBomb { cv: r.usize_below(4), kind: r.below(3) as u8 },
+                _ => Mut::XmlEntityBomb { unit: *r.pick(&[64usize, 4096, 16384]), fan: *r.pick(&[10usize, 250]), refs: *r.pick(&[1usize, 4, 8]) },
+            },
             19 => {
                 if r.chance(1, 2) {
                     Mut::AnyBits { seed: r.next_u64(), n: 1 + r.usize_below(8) }
@@ -593,7 +687,21 @@ pub fn draw_plan(r: &mut Rng, pristine: &[u8], map: &Decoded, size_targeted: boo
             21 => Mut::XmlProtoZero { nth: r.usize_below(4), keep_first: r.chance(1, 3) },
             22 => Mut::Packet { cv: r.usize_below(4), packet: r.usize_below(4), field: 4, sub: r.usize_below(40), value: 0xFFFF },
             23 => Mut::Header { field: 5, value: *r.pick(&[10 * 1024 * 1024, 10 * 1024 * 1024 + 1, 10 * 1024 * 1024 - 1, u64::MAX, 1 << 40]) },
-            24 => Mut::Header { field: 6, value: *r.pick(&[1024 * 1024, 1024 * 1024 + 1, 512 * 1024, 5, 4, 3, 0, u64::MAX, 1 << 33, 2048, 512]) },
+            24 => {
+                // page sizes: extremes, and divisors of the file size that are not multiples of four
+                let pages = (file_len / 1024).max(1);
+                let mut cands: Vec<u64> = vec![1024 * 1024, 1024 * 1024 + 1, 512 * 1024, 5, 4, 3, 0, u64::MAX, 1 << 33, 2048, 512];
+                for d in 1..=pages.min(64) {
+                    if pages % d == 0 {
+                        for m in [1u64, 2, 1024, 512, 256] {
+                            if d * m > 4 && file_len % (d * m) == 0 {
+                                cands.push(d * m);
+                            }
+                        }
+                    }
+                }
+                Mut::Header { field: 6, value: *r.pick(&cands) }
+            }
             _ => Mut::XmlAttr { name: "length".into(), nth: r.usize_below(8), value: r.pick(&["18446744073709551615", "18446744073709551600", "9223372036854775807"]).to_string() },
         };
         muts.push(m);
